@@ -17,6 +17,7 @@
 //   C <kind> <spec-hex>              all_of any_of one_of differ disjoint
 //   B                                addBracketHandler( counting lambdas) on the current handler
 //   SG <keyspec-hex> <flags>         start a sub-group handler (following A lines define its arguments) ... SE ends it
+//   SGT <slot> <keyspec-hex>         add-try of a sub-group argument whose handler has the single argument -z (slot)
 //   AF <keyspec-hex>                 addArgumentFile( spec); "@HOME@" in an argv word is replaced by the scratch home directory
 //   N <hex>                          checkEnvVarArgs( name)
 //   P <relpath-hex> <content-hex>    file below $HOME
@@ -541,6 +542,19 @@ static void runScenario(const Scenario& sc, uint64_t idx)
             {
                TypedArgBase* a = cur->addArgument(unhexf(t[2]), s->dest(t[1]), unhexf(t[3]));
                for (size_t i = 4; i < t.size(); ++i) applyOpt(a, s, t[i], *cur);
+            }
+            catch (const std::exception& e) { addFails += (addFails.empty() ? "" : ",") + t[1] + ":" + vh::hex(excName(e)); }
+         }
+         else if (c == "SGT")
+         {
+            // add-try of a sub-group argument (C05): the sub-group handler has one argument -z bound to the slot
+            if (!cur) { single.reset(new Handler(out, err, 0)); cur = single.get(); }
+            SlotBase* s = getSlot(t[1]);
+            try
+            {
+               subs.emplace_back(new Handler(*cur, 0));
+               subs.back()->addArgument("z", s->dest(t[1]), "inner");
+               cur->addArgument(unhexf(t[2]), *subs.back(), "sub group");
             }
             catch (const std::exception& e) { addFails += (addFails.empty() ? "" : ",") + t[1] + ":" + vh::hex(excName(e)); }
          }
